@@ -271,6 +271,9 @@ func checkSet56x(text string) *failure {
 	}
 	// SID block written by the library against the reference writer
 	blk := s56.SIDBlock()
+	// the block must be private to its call: encode an unrelated set before the
+	// block is read (a pooled / shared output buffer would be overwritten here)
+	otherSet56.SIDBlock()
 	wantEntries := ref.Entries56(model)
 	refBlk := ref.BodyPreviousGTIDs(wantEntries)
 	got, rerr := ref.ParseSIDBlock(blk)
@@ -292,6 +295,15 @@ func checkSet56x(text string) *failure {
 	}
 	return nil
 }
+
+// otherSet56 is an unrelated set encoded between producing and reading a SID block.
+var otherSet56 = func() replication.Mysql56GTIDSet {
+	var sid replication.SID
+	for i := range sid {
+		sid[i] = 0xEE
+	}
+	return replication.Mysql56GTID{Server: sid, Sequence: 777777}.GTIDSet().(replication.Mysql56GTIDSet)
+}()
 
 func checkSetMaria(text string) (f *failure) {
 	if pf := catch(func() { f = checkSetMariax(text) }); pf != nil {
